@@ -30,6 +30,7 @@ type Scenario struct {
 	Record     bool
 	Poison     bool
 	YieldSeg   bool // with FSYield: only calls on segment files, the directory table and files outside the database directory are scheduling points (index/meta files are touched under DB.mu only and never by Backup/FileSize readers)
+	Unclean    bool // the base image is left unclean (lock file present): the scenario's Open runs recovery
 	NoPrivateQuiet bool // disable the thread-private-mutex reduction (set automatically when its assumption breaks)
 	QuietPop   bool // reduction: iterator Next calls that only pop an already fetched item are not scheduling points
 	PostClose  []Op // operations main runs after the threads joined and after Close (use-after-close probes)
@@ -55,7 +56,7 @@ func (sc *Scenario) JSON() map[string]interface{} {
 		ts = append(ts, w)
 	}
 	return map[string]interface{}{"name": sc.Name, "base": sc.Base, "cfg": sc.Cfg, "threads": ts, "fs_yield": sc.FSYield, "track_races": sc.TrackRaces,
-		"worker": sc.Worker, "tick_budget": sc.TickBudget, "bound": sc.Bound, "poison": sc.Poison, "quiet_pop": sc.QuietPop, "yield_seg": sc.YieldSeg, "no_private_quiet": sc.NoPrivateQuiet, "post_close": WordString(sc.PostClose)}
+		"worker": sc.Worker, "tick_budget": sc.TickBudget, "bound": sc.Bound, "poison": sc.Poison, "quiet_pop": sc.QuietPop, "yield_seg": sc.YieldSeg, "no_private_quiet": sc.NoPrivateQuiet, "unclean": sc.Unclean, "post_close": WordString(sc.PostClose)}
 }
 
 // Event is one completed operation of a thread.
@@ -363,6 +364,9 @@ func RunScenario(sc *Scenario, base *Base, prefix []int, keepTrace bool, sleep .
 	}
 	st := &concState{quietPop: sc.QuietPop, fsCalls: func() int { return s.FS.Stats.Calls }, quietBad: &r.QuietBad}
 	main := func() {
+		if sc.Unclean {
+			s.FS.SetBytes(DBPath+"/lock", nil)
+		}
 		opts := s.Cfg.Options(s.FS)
 		if sc.Worker {
 			opts.BackgroundSyncInterval = 1000 * time.Hour
